@@ -98,6 +98,22 @@ type Visit struct {
 	Plain Place   `plenc:"5"`
 }
 
+// BigIn and BigOut: a nested struct whose encoding runs to tens of kilobytes. Not part of All.
+type BigIn struct {
+	S string  `plenc:"1"`
+	B []byte  `plenc:"2"`
+	N []int32 `plenc:"3"`
+}
+
+type BigOut struct {
+	ID   int              `plenc:"1"`
+	In   BigIn            `plenc:"2"`
+	P    *BigIn           `plenc:"3"`
+	L    []BigIn          `plenc:"4"`
+	M    map[string]BigIn `plenc:"5"`
+	Tail string           `plenc:"6"`
+}
+
 // PTree is recursive through a slice of pointers
 type PTree struct {
 	V    int64     `plenc:"1,flat"`
